@@ -678,6 +678,45 @@ def c13_subsets(seed, n):
                                   what='with features [%s] the request contains %s and is accepted instead of refused' % (' '.join(F), ', '.join(modgap))))
     return fails, [], dict(stats, feature_sets=len(sets))
 
+# ---------------------------------------------------------------- C03 (ranks that clash must be refused)
+def c03(seed, n):
+    """two compared fields of one struct / variant with the same rank - both explicit, or an explicit rank equal to the
+    DEFAULT rank (isize::MIN + index) of another field, earlier or later - have no defined precedence: refused"""
+    import dinput as D
+    IMIN = -(1 << 63)
+    cases = []
+    k = 0
+    e = lambda txt: [D.educe(txt)] if txt else []
+    for tset, carriers in (('PartialEq, Eq, PartialOrd, Ord', ('Ord', 'PartialOrd')), ('PartialEq, PartialOrd', ('PartialOrd',)), ('PartialEq, Eq, Ord', ('Ord',)),
+                           ('Ord, PartialEq, PartialOrd, Eq', ('Ord',))):
+        for carrier in carriers:
+            for (i, j) in ((0, 1), (0, 2), (1, 2), (2, 0), (1, 0), (2, 1)):
+                for clash in ('explicit', 'default'):
+                    for form in ('rank = %d', 'rank(%d)', 'rank = "%d"'):
+                        attrs = [None, None, None]
+                        if clash == 'explicit':
+                            attrs[i] = '%s(%s)' % (carrier, form % 5); attrs[j] = '%s(%s)' % (carrier, (form % 5) if form != 'rank = "%d"' else 'rank = 5')
+                        else:
+                            attrs[i] = '%s(%s)' % (carrier, form % (IMIN + j))       # field i takes field j's default rank
+                        for shape in ('named', 'unnamed'):
+                            def fields():
+                                return [D.Field(('a', 'b', 'c')[q] if shape == 'named' else None, 'u8', attrs=e(attrs[q])) for q in range(3)]
+                            cases.append(('c03-%d' % k, D.Input('struct', 'S', attrs=e(tset), fkind=shape, fields=fields()))); k += 1
+                            cases.append(('c03-%d' % k, D.Input('enum', 'E', attrs=e(tset), variants=[D.Variant('A', 'unit'), D.Variant('B', shape, fields=fields())]))); k += 1
+    real = k1.run_real([(i, c.rust()) for i, c in cases])
+    model = k1.run_model([(i, c.sx()) for i, c in cases])
+    fails, kdiffs = [], []
+    stats = collections.Counter(cases=len(cases))
+    for i, c in cases:
+        r = outcome(real[i]); m = k1lib.classify(model[i], 'model')
+        stats['real_' + r[0]] += 1
+        if r[0] == 'OK':
+            fails.append(dict(key='c03:' + k1lib_hash(c.rust()), input=c.rust(),
+                              what='two compared fields have the same rank (explicit, or explicit = another field\'s default rank) and the request is accepted: one of them silently decides'))
+        elif m[0] != r[0]:
+            kdiffs.append(dict(stream='c03-grid', case=i, input=c.rust(), detail='outcome class: real %s, model %s' % (r[0], m[0])))
+    return fails, kdiffs, dict(stats)
+
 # ---------------------------------------------------------------- C12 (bound = false adds nothing)
 def c12(seed, n):
     """`bound = false` / `bound(false)` / `bound = ""`: the where-clause of that trait's impl is exactly the type's own
